@@ -313,6 +313,7 @@ def run_check(run, tier, seed, shard):
         _units(run, tier, seed, shard, deadline)
         _sequentials(run, tier, seed, shard, deadline)
         _specials(run, tier, seed, shard, deadline)
+        _systems(run, tier, seed, shard, deadline)
         _random(run, tier, seed, shard, deadline)
     run.extra['emitter_calls'] = {k: v for k, v in rc.counts.items() if v}
     run.extra['emitters_never_called'] = sorted(k for k, v in rc.counts.items() if not v)
@@ -407,6 +408,38 @@ def _specials(run, tier, seed, shard, deadline):
             vecs = [{} for _ in range(600 if tier == 'quick' else 3000)]
         out = cosim.cosim(des, vecs, seq)
         judge(run, des, out, 'special', special_class(label), label, 'direct', dict(workload='special', label=label))
+
+
+def _systems(run, tier, seed, shard, deadline):
+    """Library system blocks (floating point, fixed point, AXI adapters, UART pieces) wrapped in a Dut."""
+    import py4hw
+    from . import c03
+    quick = tier == 'quick'
+    jobs = shard_slice(c03.system_designs(), shard)
+    for label, f in jobs:
+        if time.time() > deadline or run.too_many:
+            break
+        if label in ('AsynchronousMemory', 'Latch'):
+            continue      # stateful propagate blocks: excluded (DESIGN.md Appendix B)
+        rnd = rng(seed, 'c01-system', label)
+        hw = py4hw.HWSystem()
+        try:
+            with muted():
+                obj = f(hw)            # the block itself is the generation root
+                ins = [p.wire for p in obj.inPorts]
+                outs = [p.wire for p in obj.outPorts]
+                names = {p.wire.name: p.name for p in list(obj.inPorts) + list(obj.outPorts)}
+                import py4hw.rtl_generation as rg
+                top = rg.getVerilogModuleName(obj, noInstanceNumber=True)
+        except Exception as e:
+            run.count('system_build_failed')
+            continue
+        des = cosim.Design(hw, obj, ins, outs, 'system:' + label, meta=dict(port_names=names))
+        seq = py4hw.VerilogGenerator(obj).anyClockableDescendant(obj)
+        n = (60 if quick else 600) if not seq else (300 if quick else 3000)
+        vecs = cosim.gen_control_vectors(des.ins, rnd, n) if seq else cosim.gen_vectors(des.ins, rnd, n)
+        out = cosim.cosim(des, vecs, seq, top_name=top)
+        judge(run, des, out, 'system', label.split('(')[0], label, 'direct', dict(workload='system', label=label))
 
 
 def _random(run, tier, seed, shard, deadline):
